@@ -125,7 +125,13 @@ def make_case(r, thorough, i):
     extra = {}
     if kind == 'basis':
         bk2 = BASIS_KINDS[(i // 3 + 1 + i % 2) % 4]
-        b2 = gen.make_basis(r, d, bk2)
+        if d == 2 and (i // 3) % 2 == 1:
+            bk2 = 'permuted'            # Pauli elements, identity element not first, default label
+            els = ff.Basis.pauli(1).view(np.ndarray)
+            perm = [[1, 2, 3, 0], [1, 0, 2, 3], [3, 1, 0, 2]][int(r.integers(0, 3))]
+            b2 = ff.Basis(els[perm].copy())
+        else:
+            b2 = gen.make_basis(r, d, bk2)
         p1 = rebase(p, b2)
         tags['basis2'] = bk2
         extra['basis2'] = b2.view(np.ndarray)
@@ -194,6 +200,50 @@ def rebuild(inp):
     return dict(kind=kind, p=p, p1=p1, om=arr(inp['omega']), S=arr(inp['spectrum']).real, tags=inp.get('tags', {}), extra={})
 
 
+def ggm13_case(r):
+    """d = 13 (closed-form GGM expansion path of liouville_representation): two concatenated pulses with cached control
+    matrices, GGM(13) vs the same basis rotated by a random orthogonal matrix (plain Basis): fidelity filter function and
+    infidelity of the concatenation must agree with each other and with the from-scratch pulse.  numpy only."""
+    d = 13
+    bad = []
+    ggm = ff.Basis.ggm(d)
+    els = ggm.view(np.ndarray)
+    Q, _ = np.linalg.qr(r.standard_normal((d * d, d * d)))
+    rot = ff.Basis(np.einsum('kl,lab->kab', Q, els))
+    c_opers = [gen.herm(r, d) for _ in range(2)]
+    n_opers = [gen.herm(r, d, traceless=True), gen.herm(r, d)]
+    om = np.sort(r.uniform(0.1, 6.0, 5))
+    S = np.array([1.0 / (1 + om ** 2), 2.0 / (1 + om ** 2)]) * 1e-3
+    res = {}
+    with warnings.catch_warnings():
+        warnings.simplefilter('ignore')
+        coeffs = [(r.standard_normal((2, 2)) * 0.5, r.standard_normal((2, 2)), r.uniform(0.2, 0.8, 2)) for _ in range(2)]
+        for name, basis in (('ggm', ggm), ('rotated', rot)):
+            pulses = [ff.PulseSequence([[c_opers[k], cc[k], 'c%d' % k] for k in range(2)],
+                                       [[n_opers[j], nc[j], 'n%d' % j] for j in range(2)], dt, basis=basis)
+                      for cc, nc, dt in coeffs]
+            for q in pulses:
+                q.cache_control_matrix(om)
+            pc = ff.concatenate(pulses, omega=om, calc_filter_function=True)
+            scratch = gen.fresh(pc)
+            res[name] = dict(F=pc.get_filter_function(om), I=ff.infidelity(pc, S, om),
+                             Fs=scratch.get_filter_function(om), Is=ff.infidelity(scratch, S, om))
+    sF = max(np.abs(res['rotated']['Fs']).max(), 1e-300)
+    for name in ('ggm', 'rotated'):
+        if np.abs(res[name]['F'] - res[name]['Fs']).max() > 1e-8 * sF:
+            bad.append(('d=13 concatenation', 'c12-d13-%s-concatenation' % name,
+                        'fidelity filter function of the concatenated pulse (%s basis, d = 13) differs from scratch: rel %.3g'
+                        % (name, np.abs(res[name]['F'] - res[name]['Fs']).max() / sF)))
+    if np.abs(res['ggm']['F'] - res['rotated']['F']).max() > 1e-8 * sF:
+        bad.append(('d=13 basis independence', 'c12-d13-basis-ff', 'fidelity filter function of the concatenated pulse differs between '
+                    'GGM(13) and the rotated basis: rel %.3g' % (np.abs(res['ggm']['F'] - res['rotated']['F']).max() / sF)))
+    sI = max(np.abs(res['rotated']['Is']).max(), 1e-300)
+    if np.abs(res['ggm']['I'] - res['rotated']['I']).max() > 1e-8 * sI:
+        bad.append(('d=13 basis independence', 'c12-d13-basis-infidelity', 'infidelity %s (GGM(13)) vs %s (rotated basis)'
+                    % (res['ggm']['I'], res['rotated']['I'])))
+    return bad
+
+
 def run(ctx):
     n = 72 if ctx.thorough else 18
     r = ctx.rng(12)
@@ -215,6 +265,11 @@ def run(ctx):
             classes[key] = classes.get(key, 0) + 1
         if len(samples) < 4:
             samples.append(dict(tags=t, omega=[float(x) for x in c['om']], infidelity=[float(x) for x in out1['infid'].ravel()[:3]]))
+    for k in range(2 if ctx.thorough else 1):
+        seed13 = [ctx.seed, 1213, k]
+        for obs, sig, det in ggm13_case(np.random.default_rng(seed13)):
+            failures.append(dict(kind='prop', observable=obs, signature=sig, detail=det, input=dict(kind='ggm13', seed=seed13)))
+    classes['ggm13/concatenation'] = 1
     defs = [('c%d' % i, coq_case('c%d' % i, c, o, False)) for i, (c, o, _) in enumerate(cases)]
     res = ctx.eval_tallies(HEADER, defs, per_file=3)
     redo = [i for i, x in enumerate(res) if x is None or x[1] > 0]
@@ -247,6 +302,9 @@ def replay(ctx, rep):
     inp = rep.get('input')
     if not inp:
         return False, 'replay names a broken obligation: %s' % rep.get('observable')
+    if inp.get('kind') == 'ggm13':
+        bad = ggm13_case(np.random.default_rng(inp['seed']))
+        return (False, 'replay reproduces: %s' % bad) if bad else (True, 'replay: d = 13 predicates hold')
     c = rebuild(inp)
     bad, _ = compare(c['kind'], c['p'], c['p1'], c['om'], c['S'])
     if bad:
